@@ -110,6 +110,39 @@ def to_xml(S):
     return s
 
 
+def _msg_xml(m):
+    a = [("name", m["name"]), ("id", m["id"]), ("blockLength", m.get("blockLength"))] + _common(m)
+    return "    <sbe:message%s>\n%s    </sbe:message>\n" % (_attrs(a), level_xml(m, 8))
+
+
+def to_xml_files(S, tree, main="in.xml", inc="inc%d.xml"):
+    """Transliteration of a Files.tla tree (sequence of files, each a sequence
+    of items {k: types|msg|inc, ix: [1-based indices], f: file index}) into
+    {file name: text}; file 1 is `main` and carries the messageSchema element,
+    an included file holds its items at the top level (sbeppc reads the
+    children of the included document)."""
+    XI = ' xmlns:xi="http://www.w3.org/2001/XInclude"'
+
+    def items(f):
+        out = ""
+        for it in tree[f - 1]:
+            if it["k"] == "types":
+                out += "    <types>\n" + "".join(enc_xml(S["types"][i - 1], 8) for i in it["ix"]) + "    </types>\n"
+            elif it["k"] == "msg":
+                out += "".join(_msg_xml(S["messages"][i - 1]) for i in it["ix"])
+            else:
+                out += '    <xi:include%s href=%s/>\n' % (XI, quoteattr(inc % it["f"]))
+        return out
+    a = [("package", S["package"]), ("id", S["id"]), ("version", S["version"]),
+         ("semanticVersion", S.get("semanticVersion")), ("description", S.get("description")),
+         ("byteOrder", S.get("byteOrder")), ("headerType", S.get("headerType"))]
+    files = {main: '<?xml version="1.0" encoding="UTF-8"?>\n<sbe:messageSchema xmlns:sbe="http://fixprotocol.io/2016/sbe"%s>\n%s</sbe:messageSchema>\n'
+             % (_attrs(a), items(1))}
+    for f in range(2, len(tree) + 1):
+        files[inc % f] = '<?xml version="1.0" encoding="UTF-8"?>\n' + items(f)
+    return files
+
+
 # ------------------------------------------------------------------ TLA+ --
 
 def tla_str(s):
